@@ -35,6 +35,9 @@ Stmts1 == Stmts0 \cup {C(p, q) : p \in Progs0, q \in {<<S>>, <<S, S>>}} \cup {N(
           \cup (IF WithOpaque THEN {O(<<S>>), J(<<S>>), O(<<O(<<S>>)>>), O(<<J(<<S>>)>>), J(<<O(<<S, S>>)>>)} ELSE {})
 Progs1 == {<<a>> : a \in Stmts1} \cup {<<a, b>> : a \in Stmts1, b \in Stmts0} \cup {<<a, b>> : a \in Stmts0, b \in Stmts1}
           \cup {<<S, a, S>> : a \in Stmts1}
+          \* what follows a scan / a cond must not meet the keys used inside it: two sites, a cond, another scan after one
+          \cup {<<N(p, 2), S, S>> : p \in Progs0} \cup {<<C(<<S>>, <<S, S>>), S, S>>, <<G(<<S>>), S, S>>}
+          \cup {<<N(<<S>>, 2), C(<<S>>, <<S, S>>)>>, <<N(<<S, S>>, 2), N(<<S>>, 2)>>, <<N(<<S>>, 2), N(<<S, S>>, 2), S>>}
 Stmts2 == {C(<<N(<<S>>, 2)>>, <<S>>), N(<<C(<<S>>, <<S, S>>)>>, 2), N(<<N(<<S>>, 2), S>>, 2), N(<<V(2), S>>, 2),
            C(<<C(<<S>>, <<S>>), S>>, <<S>>), G(<<N(<<S>>, 2), S>>)}
 Progs2 == Progs1 \cup {<<a>> : a \in Stmts2} \cup {<<S, a>> : a \in Stmts2} \cup {<<a, S>> : a \in Stmts2}
